@@ -135,7 +135,23 @@ pub fn check_c03_run_opts(case: &TrainCase, run: &TrainRun, cx: &mut Ctx, timed:
     let on_stop_curve = |x: f64, v: f64| run.stop_curve_start.map(|s| x >= s - v.max(1.0) - 1.0).unwrap_or(false);
     let speed_at = |x: f64| run.states.iter().rev().find(|s| s.offset.value <= x + 1e-9).map(|s| s.speed.value).unwrap_or(0.0);
     // class for "target above limit" failures (root cause 1 and its stop-curve variant)
+    // root-cause discriminator that overrides the geometric / magnitude classes below: the
+    // braking curve itself is not what brake force and (reference) resistance give
+    let curve_dev = if timed { (0, None) } else { braking_curve_deviation(&RunCtx::new(case, run)) };
+    cx.count("braking_curve_steps_checked", curve_dev.0 as u64);
+    cx.label_if(curve_dev.0 > 0, "braking_curve_compared_with_reference");
+    if let Some(d) = &curve_dev.1 {
+        cx.label("braking_curve_deviates_from_reference");
+        if std::env::var("VERIF_DUMP").is_ok() {
+            eprintln!("DUMP curve deviation: {d}");
+        }
+    }
+    let curve_bad = curve_dev.1.is_some();
+    const CURVE_BAD: &str = ":braking-curve-not-brake-plus-resistance";
     let window_class = |sc: &SpeedCase, b: &[f64], x: f64| {
+        if curve_bad {
+            return CURVE_BAD;
+        }
         let g = window_class_timed(sc, b, x, timed);
         if g == ":non-monotone-limits-ahead" {
             g
@@ -155,6 +171,9 @@ pub fn check_c03_run_opts(case: &TrainCase, run: &TrainRun, cx: &mut Ctx, timed:
         1.1 * (f / m + 0.02 * G) * 1.0 + 0.05
     };
     let speed_class = |sc: &SpeedCase, b: &[f64], x: f64, excess: f64| {
+        if curve_bad {
+            return CURVE_BAD;
+        }
         let g = window_class_timed(sc, b, x, timed);
         if g == ":non-monotone-limits-ahead" {
             g
